@@ -1,5 +1,6 @@
 import Driver.OpsThm
 import TT.Spec.Edit
+import TT.Spec.Pinned
 namespace Driver
 open TT TT.Tree TT.Spec
 
@@ -24,8 +25,8 @@ def runOpEdit (op : String) (args : List String) : String :=
       | some b =>
         match c.name with
         | "punctuation_delete" => firstFail [
-            okIf (deletePunctOK a b) "wrong-tokens-deleted",
-            okIf (b.noEmpty || punctPositions a == a.yield) "childless-constituent-left",
+            okIf (deletePunctOKP a b) "wrong-tokens-deleted",
+            okIf (b.noEmpty || punctPositionsP a == a.yield) "childless-constituent-left",
             okIf (b.yield == List.range' 1 b.leafNums.length) "numbering-has-holes",
             okIf (constituentsSubset a b) "constituent-changed"]
         | "delete_terminal" =>
@@ -69,8 +70,8 @@ def runOpEdit (op : String) (args : List String) : String :=
                   | _, _ => true) "label-not-cleaned-exactly"]
         | _ => bad
   | "P.C11.lines", [a, lines] => withTree a fun a =>
-      let want := if punctPositions a == a.yield then "" else
-        ";".intercalate ((a.terminals.filter isPunctWord).map fun l => s!"{l.num},{encOS l.fields.word},{encS l.fields.label}")
+      let want := if punctPositionsP a == a.yield then "" else
+        ";".intercalate ((a.terminals.filter isPunctWordP).map fun l => s!"{l.num},{encOS l.fields.word},{encS l.fields.label}")
       if lines == want then "ok" else "FAIL printed-lines"
   | _, _ => unknownOp
 
